@@ -46,6 +46,7 @@ class Scenario:
         self.world = plugsynth.World()
         self.env = {}
         self.twins = False
+        self.ends_with = recipe.get('ends_with') or 'line'
         specs = []
         for i, p in enumerate(recipe['plugins']):
             specs.append({'name': 'P%d' % i, 'roles': p['roles'], 'order': p['order'], 'state': p['state'],
@@ -122,7 +123,12 @@ class Scenario:
                     lab.CLOCK.advance_ms(5)
                     d.trigger_handler.trace_call(g.gi_frame, 'line', None)
                     next(g)
-                    d.trigger_handler.trace_call(g.gi_frame, 'line', None)      # the next line: line spans complete
+                    if self.ends_with == 'exception':
+                        # the line raises: what was opened for it completes on the exception event
+                        err = ValueError('line failed')
+                        d.trigger_handler.trace_call(g.gi_frame, 'exception', (ValueError, err, None))
+                    else:
+                        d.trigger_handler.trace_call(g.gi_frame, 'line', None)      # the next line: line spans complete
                 except BaseException as e:      # noqa
                     self.problems.append('trace_call raised %s' % type(e).__name__)
                 finally:
@@ -182,6 +188,7 @@ class C20(Prop):
             # what the failing callback raises: an ordinary error, or the plugins' own "cannot work here" exception
             'fault_kind': st.sampled_from(['E', 'E', 'D']),
             'plugins_as': st.sampled_from(['list', 'list', 'list', 'tuple']),
+            'ends_with': st.sampled_from(['line', 'line', 'exception']),
         })
 
     def run_case(self, recipe):
@@ -234,6 +241,24 @@ class C20(Prop):
                         out.violate('fault-free scenario: an active %s plugin got %s calls of %s' % (
                             role, 'fewer' if n < 4 else 'more', cb), {'plugin': name, 'calls': n, 'expected': 4})
                         return out
+        # the tracepoint logger is the first logger in declared order - over all loaded plugins, the built-in python
+        # plugin (order 0, listed before the configured ones) included
+        loggers = [n for n in exp_loaded if 'logger' in recipe['plugins'][int(n[1:])]['roles']]
+        if loggers and not odd:
+            def declared(n):
+                return recipe['plugins'][int(n[1:])]['order'] or 0
+            first = loggers[0]
+            builtin_first = not recipe.get('python_plugin_off') and declared(first) >= 0
+            if declared(first) < 0:
+                out.cls('configured_logger_ordered_before_the_built_in_one')
+            for n in loggers:
+                calls = len([c for c in base.world.calls if c[0] == n and c[1] == 'log_tracepoint'])
+                want = 4 if (n == first and not builtin_first) else 0
+                if calls != want:
+                    out.violate('fault-free scenario: the tracepoint logger is not the first logger in declared order',
+                                {'plugin': n, 'calls': calls, 'expected': want, 'order': declared(n),
+                                 'python_plugin': not recipe.get('python_plugin_off')})
+                    return out
         # ---- placements ---------------------------------------------------------------------------------------
         placements = []
         seen = {}
@@ -244,6 +269,9 @@ class C20(Prop):
             return out
         # besides "the k-th call fails": "every call fails" (a plugin that is simply broken), once per (plugin, callback)
         always = sorted({(pi, cb, 'all') for (pi, cb, n) in placements})
+        # a span has more methods than create and close (events, attributes): a plugin whose spans fail in those is
+        # broken in the same way, whether or not the agent calls them today
+        always += [(i, 'span_event', 'all') for i, p in ok if 'span' in p['roles']]
         pool = placements + always
         chosen = pool if recipe['all_placements'] else \
             [pool[i % len(pool)] for i in dict.fromkeys(recipe['placements'])] + \
